@@ -40,6 +40,13 @@ PROPERTIES = {
     rule='object with 10 fields (int32, double, string, vector, e-mail, phone, uint8, nested object, array of objects, map of objects), each with 0..3 runtime-chosen validators out of Required / Range / MinSize / MaxSize / Email / PhoneNumber / custom functors + lambda, default or custom messages; every field present (at, just inside, just outside each bound), absent, null or mismatched-and-skipped; maxValidationErrors in {0,1,2,3,4,8}; 4 archives, memory and streams; oracle = reference model of the documented validator rules predicting failing paths and messages in load order',
     assumptions=TRUSTED + ['array / row positions inside paths are wildcards (the property exempts them)', 'default PhoneNumber messages are only required to start with "Invalid phone number"; e-mail labels starting with a digit and phones with repeated "+" are not generated (documentation is silent)', 'mismatches are generated under the Skip policies (C05 covers the policies themselves)'],
     units=[U('c17_validation', 'c17_validation.cpp', flavour='asan', libs=['-lpugixml'], quick=dict(cases=20000, shards=8, min_eval=50000), thorough=dict(cases=600000, shards=16, min_eval=1000000))]),
+ 'C08': dict(
+    level='exploration', exhaustive_claim=False,
+    rule='JSON: dynamic trees (null, bool, int64/uint64, finite double/float full range, strings over the full Unicode range, empty/nested containers, any root) and typed fixed-width integers x compact/pretty(padding char x count) x memory/stream x 5 encodings x BOM; forward oracle nlohmann::ordered_json + ref_utf byte decoding; converse: own free-choice emitter (white space, escapes, member order, numeric spelling, encoding, BOM), self-checked against nlohmann. XML: object/array trees of XML Names and XML Chars + typed records with attributes; forward oracle libxml2 infoset; converse: own emitter (entities, character references, CDATA, quote style, child order, white space, declaration, encoding, BOM), self-checked against libxml2',
+    assumptions=TRUSTED + ['nlohmann::json 3.x and libxml2 are the independent standard parsers', 'BOM-less UTF-16/32 streams start with two ASCII characters and hold no U+0000 (soundness rule 1)', 'integers are re-spelled as integers only (soundness rule 3)', 'XML: no CR, no empty / blank-only text, no empty containers (recorded findings KF-12, KF-13), keys are XML Names (KF-44)'],
+    units=[U('c08_json', 'c08_json.cpp', flavour='asan', libs=['-lpugixml'], quick=dict(cases=20000, shards=8, min_eval=50000), thorough=dict(cases=600000, shards=16, min_eval=1000000)),
+           U('c08_xml', 'c08_xml.cpp', flavour='asan', cflags=['-I/usr/include/libxml2'], libs=['-lpugixml', '-lxml2'], quick=dict(cases=20000, shards=8, min_eval=50000), thorough=dict(cases=600000, shards=16, min_eval=1000000)),
+           U('c01_kf', 'c01_kf.cpp', flavour='asan', libs=['-lpugixml'], args=['--prop', 'kf12*,kf13*,kf44*'], quick=dict(cases=60, shards=1, min_eval=10), thorough=dict(cases=600, shards=1, min_eval=10))]),
  'C09': dict(
     level='exploration', exhaustive_claim=False,
     rule='generated tables (1..8 columns, 1..12 rows; cells: arbitrary Unicode incl. separators, quotes, CR, LF, CRLF, blanks, U+0000, long cells, numbers, booleans, ISO dates, empty) x 5 separators x memory/stream x 5 encodings x BOM; forward: strict RFC 4180 reference parser recovers header + cells; converse: reference writer with free quoting / LF or CRLF / optional final break / permuted columns loads to the same rows (maps and typed by-name struct); ragged records rejected',
